@@ -9,7 +9,11 @@ where the writer touches shared state, none of which needs an edit of odc-geo:
   rd / wr   read / write of `MultiPartUpload.uploadId` (a data descriptor on a subclass that
             inherits every method of the real class unchanged)
   gc        `distributed.get_client()` as called by the real `_s3._dask_client`
-  acq / rel enter / exit of the lock: the object stored in `_s3._state["mpu_lock"]` (local
+  sget / ssd / sset / sin / sitem   operations on the module dict `_s3._state` (replaced by an
+            instrumented dict subclass that starts EMPTY: the process-wide lock does not exist
+            yet and is created lazily by the real `_mpu_local_lock`, whose `Lock()` calls build
+            scheduler-aware lock objects through the substituted `_s3.Lock`)
+  acq / rel enter / exit of a lock object: whatever `_mpu_local_lock()` returned (local
             variant) or the fake `distributed.Lock` (cluster variant)
   vget / vset / vdel   fake `distributed.Variable`
   create / upload / complete   methods of the fake S3 client
@@ -54,7 +58,8 @@ class _T:
 
 # context switches only at these operations (plus each thread's first one) in coarse mode;
 # reads / writes of uploadId and get_client() then ride along with the preceding operation
-COARSE = frozenset({"acq", "rel", "create", "upload", "complete", "vget", "vset", "vdel"})
+COARSE = frozenset({"acq", "rel", "create", "upload", "complete", "vget", "vset", "vdel",
+                    "ssd", "sset", "sitem", "sin"})
 
 
 class Sched:
@@ -189,6 +194,38 @@ class FakeLock:
     def __exit__(self, *exc):
         self.release()
         return False
+
+
+class InstrDict(dict):
+    """stands in for the module dict `_s3._state`: every access is a scheduler yield point"""
+
+    def __init__(self, sched: "Sched"):
+        super().__init__()
+        self._sched = sched
+
+    def get(self, k, d=None):
+        self._sched.yield_point("sget")
+        return dict.get(self, k, d)
+
+    def setdefault(self, k, d=None):
+        self._sched.yield_point("ssd")
+        return dict.setdefault(self, k, d)
+
+    def __setitem__(self, k, v):
+        self._sched.yield_point("sset")
+        dict.__setitem__(self, k, v)
+
+    def __getitem__(self, k):
+        self._sched.yield_point("sitem")
+        return dict.__getitem__(self, k)
+
+    def __contains__(self, k):
+        self._sched.yield_point("sin")
+        return dict.__contains__(self, k)
+
+    def pop(self, k, *d):
+        self._sched.yield_point("spop")
+        return dict.pop(self, k, *d)
 
 
 class FakeS3:
@@ -346,18 +383,27 @@ class System:
         self.sched = Sched(coarse)
         self.s3 = FakeS3(self.sched)
         self.cluster = Cluster(self.sched)
-        self.local_lock = FakeLock(self.sched)
+        self.state = InstrDict(self.sched)  # no lock yet: first S3 write of the process
+        self.made_locks: List[FakeLock] = []
+
+        def make_lock():
+            lk = FakeLock(self.sched)
+            self.made_locks.append(lk)
+            return lk
+
         CURRENT.update(sched=self.sched, s3=self.s3, cluster=self.cluster, local=workers is None)
         self._saved = (
             distributed.get_client,
             distributed.Variable,
             distributed.Lock,
-            _s3._state.get("mpu_lock", None),  # pylint: disable=protected-access
+            _s3._state,  # pylint: disable=protected-access
+            _s3.Lock,
         )
         distributed.get_client = fake_get_client
         distributed.Variable = FakeVariable
         distributed.Lock = FakeDLock
-        _s3._state["mpu_lock"] = self.local_lock  # pylint: disable=protected-access
+        _s3._state = self.state  # pylint: disable=protected-access
+        _s3.Lock = make_lock
 
         mpu = instr_mpu_class()("bucket", "some/key.tif")
         if workers is None:
@@ -387,11 +433,7 @@ class System:
     def close(self):
         self.sched.abort()
         d, s3 = self._dist, self._s3mod
-        d.get_client, d.Variable, d.Lock, old = self._saved
-        if old is None:
-            s3._state.pop("mpu_lock", None)  # pylint: disable=protected-access
-        else:
-            s3._state["mpu_lock"] = old  # pylint: disable=protected-access
+        d.get_client, d.Variable, d.Lock, s3._state, s3.Lock = self._saved  # pylint: disable=protected-access
 
     # ---- observation
     def outcome(self, tid: int) -> str:
@@ -404,7 +446,9 @@ class System:
 
     def lock_holder(self) -> Optional[int]:
         if self.workers is None:
-            return self.local_lock.holder
+            # holder of the lock object that is stored in `_state`
+            lk = dict.get(self.state, "mpu_lock", None)
+            return None if lk is None else lk.holder
         for lk in self.cluster.locks.values():
             if lk.holder is not None:
                 return lk.holder
